@@ -234,6 +234,9 @@ fn lf_one(cx: &mut Ctx, sel: u8, body: &[u8], rng: &mut Rng) {
         3 => {
             let d = f_doc(rng);
             lf::case_write(cx, &d, sel & 0x80 != 0);
+            if sel & 0x40 != 0 {
+                lf::case_writenf(cx, &d, sel & 0x80 != 0, rng.below(16));
+            }
         }
         4 => {
             let d = f_doc(rng);
@@ -311,7 +314,12 @@ fn obs_one(cx: &mut Ctx, sel: u8, rng: &mut Rng) {
                     _ => obs::Op::DeregRaw(e, segs, t),
                 }
             }
-            _ => obs::Op::Limit(*rng.pick(&[0u8, 1, 2, 5, 254, 255])),
+            _ => if rng.chance(1, 3) {
+                let key = obs::Op::Reg(0, p, vec![]).paths().unwrap();
+                obs::Op::Seq(key, *rng.pick(&[u32::MAX, u32::MAX - 1, 0xff_ffff, 0xffff, 0]))
+            } else {
+                obs::Op::Limit(*rng.pick(&[0u8, 1, 2, 5, 254, 255]))
+            },
         });
     }
     obs::case_trace(cx, &ops);
